@@ -9,6 +9,7 @@ from productmd.images import Images
 from productmd.rpms import Rpms
 from productmd.treeinfo import TreeInfo
 from productmd.common import SortedConfigParser, RELEASE_TYPES
+import domains
 
 PROPERTY = "C05"
 
@@ -60,13 +61,18 @@ def composeinfo_old(sym, layout, ctype, layered, with_label):
         major, minor = 1, sym.int("minor", 0, 2)
     r_name = sym.str("r_name", 3)
     r_short = sym.str("r_short", 3)
-    r_version = sym.str("r_version", 4)
+    r_version = sym.str("r_version", 4, alphabet="printable")
+    sym.assume(domains.release_version(sym, r_version))
     r_type = sym.one_of("r_type", RELEASE_TYPES)
     date = sym.str("date", 8, minlen=8, alphabet="digits")
     respin = sym.int("respin", 0, 9999)
-    cid = "Prod-1.0-" + date + SUFFIX[ctype] + "." + str(respin)
-    compose = {"id": cid, "type": ctype}
-    if layout != "0.0-0.2":
+    if layout == "0.0-0.2":
+        cid = "Prod-1.0-" + date + SUFFIX[ctype] + "." + str(respin)
+        compose = {"id": cid, "type": ctype}
+    else:
+        # from 0.3 on the fields are authoritative; the id is only an identifier and need not encode the same values
+        cid = "Prod-1.0-" + sym.str("id_date", 8, minlen=8, alphabet="digits") + [".n", "", ".t"][len(ctype) % 3] + "." + str(sym.int("id_respin", 0, 99))
+        compose = {"id": cid, "type": ctype}
         compose["date"] = date
         compose["respin"] = respin
     if with_label:
@@ -83,7 +89,9 @@ def composeinfo_old(sym, layout, ctype, layered, with_label):
         if layout == "1.x":
             product["internal"] = sym.bool("internal")
     if layered:
-        payload["base_product"] = {"name": sym.str("bp_name", 3), "short": sym.str("bp_short", 3), "version": sym.str("bp_version", 3)}
+        bp_version = sym.str("bp_version", 3, alphabet="printable")
+        sym.assume(domains.release_version(sym, bp_version))
+        payload["base_product"] = {"name": sym.str("bp_name", 3), "short": sym.str("bp_short", 3), "version": bp_version}
         if layout == "1.x":
             payload["base_product"]["type"] = sym.one_of("bp_type", RELEASE_TYPES)
     variants = {}
@@ -104,11 +112,7 @@ def composeinfo_old(sym, layout, ctype, layered, with_label):
     if layout == "1.x":
         doc["header"]["type"] = "productmd.composeinfo"
     ci = ComposeInfo()
-    try:
-        ci.loads(json.dumps(doc))
-    except ValueError:
-        # the symbolic release/base-product fields may be invalid (version rule): refused cleanly
-        return
+    ci.loads(json.dumps(doc))            # every field is inside its documented domain: the load must succeed
     sym.cover("loaded")
     got = ci_facts(ci)
     sym.check("release", got["release"] == [r_name, r_short, r_version, r_type, layered, product.get("internal", False)])
@@ -236,7 +240,9 @@ def treeinfo_old(sym, layout, arch, layered, with_addon):
     name = sym.str("r_name", 3, alphabet=TEXT)
     short = sym.str("r_short", 3, alphabet=TEXT)
     version = sym.str("r_version", 3, alphabet=TEXT)
+    sym.assume(domains.in_domain(sym, "tree-version", "str", version))
     ts = sym.int("timestamp", -(2 ** 40), 2 ** 40)
+    sym.assume(ts != 0)
     if layout == "0.3":
         p.add_section("header")
         p.set("header", "version", "0.%d" % sym.int("minor", 1, 3))
@@ -258,6 +264,7 @@ def treeinfo_old(sym, layout, arch, layered, with_addon):
         p.set(rel, "is_layered", "true")
         p.add_section("base_product")
         bp = [sym.str("bp_name", 2, alphabet=TEXT), sym.str("bp_short", 2, alphabet=TEXT), sym.str("bp_version", 2, alphabet=TEXT)]
+        sym.assume(domains.in_domain(sym, "tree-version", "str", bp[2]))
         p.set("base_product", "name", bp[0])
         p.set("base_product", "short", bp[1])
         p.set("base_product", "version", bp[2])
@@ -301,10 +308,7 @@ def treeinfo_old(sym, layout, arch, layered, with_addon):
     p.set("checksums", "images/boot.iso", "sha256:" + cs)
     text = write_parser(p)
     ti = TreeInfo()
-    try:
-        ti.loads(text)
-    except ValueError:
-        return
+    ti.loads(text)                       # every field is inside its documented domain: the load must succeed
     sym.cover("loaded")
     got = ti_facts(ti)
     sym.check("release", got["release"] == [name, short, version, layered])
